@@ -159,6 +159,14 @@ def listAdaptor {α : Type} (l : List α) (a : Nat) (kind : String) (b : Nat) (s
   | "min" => s!"ok {shw (rest.foldl (fun acc x => match acc with
       | none => some x | some m => if !(le m x) then some x else some m) none)} none"
   | "hint" => "ok 1"
+  | "vcount" => s!"ok {rest.length}"
+  | "vlast" => s!"ok {shw rest.getLast?}"
+  | "vmax" => s!"ok {shw (rest.foldl (fun acc x => match acc with
+      | none => some x | some m => if !(le m x) then some m else some x) none)}"
+  | "vmin" => s!"ok {shw (rest.foldl (fun acc x => match acc with
+      | none => some x | some m => if !(le m x) then some x else some m) none)}"
+  | "skipcount" => s!"ok {(rest.drop b).length}"
+  | "vfold" => s!"ok {rest.length} {if rest.isEmpty then "-" else ",".intercalate (rest.map sh)}"
   | _ => "bad-op"
 
 /-- `sop expr n <RPN>`: operands are cube lists, `&` `|` `!` the operators of `Sop`; `none` = panic,
@@ -465,6 +473,14 @@ def step (line : String) : String :=
       | "fold" => let r := it.rest fuel
         s!"ok {showHexNat (r.1.foldl (fun h l => l.t.foldl digestStep h) 14695981039346656037)} {sh r.2.next.1}"
       | "hint" => "ok 1"
+      | "vcount" => s!"ok {(it.rest fuel).1.length}"
+      | "vlast" => s!"ok {sh (it.rest fuel).1.getLast?}"
+      | "vmax" => s!"ok {sh (Dyn.maxOf (it.rest fuel).1)}"
+      | "vmin" => s!"ok {sh (Dyn.minOf (it.rest fuel).1)}"
+      | "skipcount" => s!"ok {((it.advance b).rest fuel).1.length}"
+      | "vfold" => let r := (it.rest fuel).1
+        let key (l : Lut) : Nat := l.t.foldl (fun a w => (a * 31 + w.toNat) % 2 ^ 64) 0
+        s!"ok {r.length} {showHexNat (r.foldl (fun a l => (a + key l) % 2 ^ 64) 0)} {sh r.head?} {sh r.getLast?}"
       | _ => "bad-op")
     | _, _, _ => "bad-op")
   | ["tohex", _, tab] => (match parseTab tab with
